@@ -9,7 +9,7 @@ import pickle
 
 from . import seams
 from .netgen import DEFAULT_CONFIG, build_network, net_to_ref
-from .seams import CLOCK, RANDOM, SOLVER, InjectedSolverFailure, WorkBudgetExceeded
+from .seams import CLOCK, RANDOM, SOLVER, InjectedMemoryFailure, InjectedSolverFailure, WorkBudgetExceeded
 
 from biobalm import SuccessionDiagram  # noqa: E402  (after seams put BIOBALM_SRC on sys.path)
 from biobalm.control import succession_control, successions_to_target  # noqa: E402
@@ -72,11 +72,12 @@ class World:
         SOLVER.reorder_rng = self.reorder_rng
         RANDOM.walk_seed = self.walk_seed
 
-    def _guarded(self, fn, fail_at=None, fail_kinds=None):
+    def _guarded(self, fn, fail_at=None, fail_kinds=None, fail_exc=None):
         """Run fn() under clock + fault plan; return outcome dict."""
         self._enter()
         SOLVER.fail_at = fail_at
         SOLVER.fail_kinds = fail_kinds
+        SOLVER.fail_exc = fail_exc or "runtime"
         n = self.ref.n
         D = len(self.sd) if self.sd is not None else 1
         limit = work_budget(n, D, self.config if self.sd is None else self.sd.config) if self.budget else None
@@ -91,7 +92,7 @@ class World:
         except WorkBudgetExceeded as e:
             out["cls"] = "budget_exceeded"
             out["where"] = e.where
-        except InjectedSolverFailure as e:
+        except (InjectedSolverFailure, InjectedMemoryFailure) as e:
             out["cls"] = "injected_failure"
             out["msg"] = str(e)
         except KeyError as e:
@@ -113,13 +114,15 @@ class World:
             out["work"] = CLOCK.stop()
             SOLVER.fail_at = None
             SOLVER.fail_kinds = None
+            SOLVER.fail_exc = "runtime"
         out["points"] = SOLVER.points
         out["solver_calls"] = SOLVER.calls
         out["fired"] = list(SOLVER.fired)
         out["reordered"] = SOLVER.reordered
         self.total_work += out["work"]
         if out["fired"]:
-            self.fault_counts["solver_failure"] = self.fault_counts.get("solver_failure", 0) + len(out["fired"])
+            key = "solver_failure_memoryerror" if fail_exc == "memory" else "solver_failure"
+            self.fault_counts[key] = self.fault_counts.get(key, 0) + len(out["fired"])
         if out["reordered"]:
             self.fault_counts["model_reorder"] = self.fault_counts.get("model_reorder", 0) + out["reordered"]
         return out
@@ -165,7 +168,7 @@ class World:
                 self.log.append({"op": op, "out": out})
                 return out
         fn = self._executor(kind, op, nid)
-        out = self._guarded(fn, fail_at=op.get("fail_at"), fail_kinds=set(op["fail_kinds"]) if op.get("fail_kinds") else None)
+        out = self._guarded(fn, fail_at=op.get("fail_at"), fail_kinds=set(op["fail_kinds"]) if op.get("fail_kinds") else None, fail_exc=op.get("fail_exc"))
         if kind == "pickle" and out["cls"] == "ok":
             self.fault_counts["crash_restart"] = self.fault_counts.get("crash_restart", 0) + 1
         if kind == "reclaim" and out["cls"] == "ok":
